@@ -319,7 +319,21 @@ pub fn main_loop(mut p: impl Prop) {
                 let mut rng = Rng::new(seed);
                 (0..n).map(|i| p.gen(&mut rng, tier, i, n)).collect()
             };
+            // watchdog: a case that does not finish (a wedged implementation thread the
+            // per-case guards did not catch) ends the process with what was printed so far
+            let beat = std::sync::Arc::new(std::sync::Mutex::new(std::time::Instant::now()));
+            let beat2 = beat.clone();
+            let limit: u64 = std::env::var("VERIF_CASE_TIMEOUT_S").ok().and_then(|s| s.parse().ok()).unwrap_or(30);
+            std::thread::spawn(move || loop {
+                std::thread::sleep(std::time::Duration::from_millis(500));
+                if beat2.lock().unwrap().elapsed().as_secs() > limit {
+                    eprintln!("watchdog: a case exceeded {limit}s");
+                    std::process::exit(3);
+                }
+            });
             for input in inputs {
+                *beat.lock().unwrap() = std::time::Instant::now();
+                let _ = out.flush();
                 match p.run(&input) {
                     Some((o, tags)) => {
                         let _ = writeln!(out, "{}\t{}\t{}", input.to_sexp(), o.to_sexp(), tags.join(","));
